@@ -15,7 +15,7 @@ import (
 // length checks behind it), with a cut/EOF/fault anywhere: never panics, buffers stay bounded.
 func VerifC10ReadGarbage() {
 	key := verifrt.Bytes("key", framing.KeyLength)
-	n := []int{0, 1, 2, 18, 21, 1450, 20, 17, 40, 1448, 3000}[verifrt.Pick("wire_len_class", 0, verifrt.Param("len_classes")-1)]
+	n := []int{0, 1, 2, 18, 21, 20, 17, 40, 1450, 1448, 3000}[verifrt.Pick("wire_len_class", 0, verifrt.Param("len_classes")-1)]
 	wire := verifrt.Bytes("wire", n)
 	rxc := verifrt.NewConn("rx", wire)
 	rxc.MaxChunks = 2
